@@ -26,7 +26,7 @@ Lemma pop_apply : forall g nm0 st,
 Proof.
   intros [|n|n|k] nm0 st; cbn [apply_sig absorb brk_walk cont_up kill_all map tl new_frame f_name]; try reflexivity.
   - destruct (name_eqb nm0 n); reflexivity.
-  - destruct (name_eqb nm0 n); reflexivity.
+  - destruct (name_eqb nm0 n); [reflexivity|]. destruct st; reflexivity.
 Qed.
 
 Lemma exit_absorb : forall nm g x, exit_sig (absorb nm g) x = exit_sig g x.
@@ -38,7 +38,8 @@ Proof.
   intros g [|f st] Hne Hg; [congruence|].
   destruct g as [|n|n|k]; [congruence| | |]; cbn [apply_sig brk_walk cont_up kill_all map].
   - destruct (name_eqb (f_name f) n); reflexivity.
-  - destruct (name_eqb (f_name f) n); cbn; [apply andb_false_r|reflexivity].
+  - destruct (name_eqb (f_name f) n); cbn; [apply andb_false_r|].
+    destruct st; cbn; [apply andb_false_r|reflexivity].
   - reflexivity.
 Qed.
 
@@ -55,6 +56,7 @@ Proof. intros body [|k] i c H; cbn [cancel_loop]; [reflexivity|]. rewrite H. ref
 Section Loop.
   Variable nm : name.
   Variable encl : list name.
+  Hypothesis encl_ne : encl <> [].
   Variable body_c : N -> cstate -> cstate.
   Variable body_r : N -> list tok * sig.
   Hypothesis Hbody : forall i st o x, all_live st = true -> map f_name st = nm :: encl ->
@@ -91,7 +93,8 @@ Section Loop.
         cbn [cont_up]. rewrite HN'. destruct (name_eqb nm n).
         * rewrite (IH (i + 1) (kill_rest F') st (o ++ o1) x HN' HC' HL HM).
           destruct (ref_loop body_r nm k (i + 1)) as [o2 g2]. cbn [fst snd]. rewrite app_assoc. reflexivity.
-        * rewrite cancelled_loop by reflexivity. cbn. reflexivity.
+        * destruct st as [|G st']; [cbn in HM; congruence|].
+          rewrite cancelled_loop by reflexivity. cbn. reflexivity.
       + (* return *)
         cbn [kill_all map]. rewrite cancelled_loop by reflexivity. cbn. reflexivity.
   Qed.
@@ -124,11 +127,11 @@ Proof.
     + cbn. rewrite app_nil_r. reflexivity.
   - (* Foreach *) intros id n b IH e encl st o x L M NE W. cbn [exec_stmt ref_stmt wn_stmt] in *.
     unfold push. cbn [c_stack c_out c_exit].
-    apply (loop_refines NForeach encl (fun i c' => exec_block ((id, i) :: e) b c') (fun i => ref_block ((id, i) :: e) b)); auto.
+    apply (loop_refines NForeach encl NE (fun i c' => exec_block ((id, i) :: e) b c') (fun i => ref_block ((id, i) :: e) b)); auto.
     intros i st' o' x' L' M'. apply (IH ((id, i) :: e) (NForeach :: encl)); auto. discriminate.
   - (* While *) intros id n b IH e encl st o x L M NE W. cbn [exec_stmt ref_stmt wn_stmt] in *.
     unfold push. cbn [c_stack c_out c_exit].
-    apply (loop_refines NWhile encl (fun i c' => exec_block ((id, i) :: e) b c') (fun i => ref_block ((id, i) :: e) b)); auto.
+    apply (loop_refines NWhile encl NE (fun i c' => exec_block ((id, i) :: e) b c') (fun i => ref_block ((id, i) :: e) b)); auto.
     intros i st' o' x' L' M'. apply (IH ((id, i) :: e) (NWhile :: encl)); auto. discriminate.
   - (* Call *) intros f b IH e encl st o x L M NE W. cbn [exec_stmt ref_stmt wn_stmt] in *.
     rewrite (IH [] [NFunc f] [new_frame (NFunc f)] [] 0%Z); [| reflexivity | reflexivity | discriminate | exact W].
@@ -136,9 +139,9 @@ Proof.
     destruct g; reflexivity.
   - (* Break *) intros nm e encl st o x L M NE W. cbn. rewrite app_nil_r. reflexivity.
   - (* Continue *) intros nm e encl st o x L M NE W. cbn [exec_stmt ref_stmt wn_stmt fst snd apply_sig exit_sig c_stack c_out c_exit] in *.
-    rewrite app_nil_r. apply andb_true_iff in W as [_ W].
-    destruct st as [|F st]; [cbn in M; subst encl; congruence|].
-    cbn in M. subst encl. apply negb_true_iff in W. unfold cont_walk. rewrite W. reflexivity.
+    rewrite app_nil_r.
+    destruct st as [|F [|G st]]; cbn in M; subst encl; try discriminate.
+    apply negb_true_iff in W. unfold cont_walk. cbn [cont_up]. rewrite W. reflexivity.
   - (* Return *) intros k e encl st o x L M NE W. cbn. rewrite app_nil_r. reflexivity.
   - (* BNil *) intros e encl st o x L M NE W. cbn. rewrite app_nil_r. reflexivity.
   - (* BCons *) intros s IHs b IHb e encl st o x L M NE W. cbn [exec_block ref_block wn_block c_stack] in *.
@@ -193,9 +196,15 @@ Theorem continue_next_iteration : forall nm F inner outer,
   f_name F = nm -> (forall G, In G inner -> name_eqb (f_name G) nm = false) ->
   cont_up nm (inner ++ F :: outer) = map kill inner ++ kill_rest F :: outer.
 Proof.
-  intros nm F inner outer HF. induction inner as [|G inner IH]; intro H; cbn [app map cont_up].
-  - rewrite HF, name_eqb_refl. reflexivity.
-  - rewrite (H G (or_introl eq_refl)). f_equal. apply IH. intros G' HG'. apply H. right. exact HG'.
+  intros nm F inner outer HF. induction inner as [|G inner IH]; intro H; cbn [app map].
+  - cbn [cont_up]. rewrite HF, name_eqb_refl. reflexivity.
+  - change (cont_up nm (G :: inner ++ F :: outer)) with
+      (if name_eqb (f_name G) nm then kill_rest G :: (inner ++ F :: outer)
+       else match inner ++ F :: outer with [] => [kill_rest G] | _ => kill G :: cont_up nm (inner ++ F :: outer) end).
+    rewrite (H G (or_introl eq_refl)).
+    assert (IH' := IH (fun G' HG' => H G' (or_intror HG'))).
+    destruct (inner ++ F :: outer) eqn:E; [destruct inner; discriminate|].
+    f_equal. exact IH'.
 Qed.
 
 (* ... and the reference loop does run its next iteration *)
@@ -244,4 +253,26 @@ Proof.
   generalize (fst (run_ref main)). induction l as [|[t|k] l IH]; cbn; auto.
   - rewrite N.eqb_refl. exact IH.
   - rewrite Z.eqb_refl. exact IH.
+Qed.
+
+(* ---- the function boundary ---- *)
+(* Whatever a called function does - including a break / continue whose name only a block of the
+   CALLER has - the caller's frames and exit number are untouched and the call is an ordinary
+   statement for the caller: the jump ends (at most) the function it is written in. *)
+Theorem break_does_not_cross_function : forall e f b st o x,
+  c_stack (exec_stmt e (Call f b) (mk st o x)) = st /\
+  c_exit (exec_stmt e (Call f b) (mk st o x)) = x /\
+  snd (ref_stmt e (Call f b)) = SNone.
+Proof.
+  intros e f b st o x. cbn [exec_stmt ref_stmt c_stack c_exit]. repeat split.
+  destruct (ref_block [] b); reflexivity.
+Qed.
+
+(* a break whose name no block of the function has abandons the function: every frame of the
+   activation dies (and, the stack ending at the function, nothing else) *)
+Theorem unresolved_break_kills_function_only : forall nm st,
+  (forall G, In G st -> name_eqb (f_name G) nm = false) -> brk_walk nm st = map kill st.
+Proof.
+  intros nm st. induction st as [|G st IH]; intro H; cbn [brk_walk map]; [reflexivity|].
+  rewrite (H G (or_introl eq_refl)). f_equal. apply IH. intros G' HG'. apply H. right. exact HG'.
 Qed.
